@@ -384,6 +384,29 @@ func genECase(t *rapid.T) ECase {
 			State: rapid.SampledFrom([]string{"closed", "closed", "closed", "dirty", "rebuilding"}).Draw(t, "state"),
 		})
 	}
+	if n >= 2 && rapid.IntRange(0, 4).Draw(t, "latecomer") == 0 {
+		// the most up-to-date replica registers last, after somebody else has been
+		// elected; then every replica in turn tries a start that also names the latecomer:
+		// only the elected one may start, and the stale ones among those it names are not used for reads
+		h := 0
+		for i, sp := range ec.Specs {
+			if sp.State != "rebuilding" && (ec.Specs[h].State == "rebuilding" || sp.Rev > ec.Specs[h].Rev) {
+				h = i
+			}
+		}
+		for _, i := range rapid.Permutation(seqInts(n)).Draw(t, "orderL") {
+			if i != h {
+				ec.Ops = append(ec.Ops, EOp{K: "register", Node: i})
+			}
+		}
+		ec.Ops = append(ec.Ops, EOp{K: "register", Node: h})
+		for _, i := range rapid.Permutation(seqInts(n)).Draw(t, "starters") {
+			if i != h {
+				ec.Ops = append(ec.Ops, EOp{K: "startmulti", Node: i, More: []int{h}})
+			}
+		}
+		return ec
+	}
 	if rapid.Bool().Draw(t, "scenario") {
 		// structured: everybody registers, something happens to the elected one, registrations continue
 		for _, i := range rapid.Permutation(seqInts(n)).Draw(t, "order1") {
